@@ -325,7 +325,7 @@ def real_one(spec: dict):
     cfg = {k: spec[k] for k in ("job", "hosts", "workers")}
     virt = execute(cfg, spec["fault"])
     v_outcome = "hang" if virt["phase1"] != "done" else ("returned" if virt["returned"] else "raised")
-    env = dict(os.environ, PYTHONPATH=f"/repo/src:{common.VERIF}")
+    env = dict(os.environ, PYTHONPATH=f"{common.REPO_SRC}:{common.VERIF}")
     import signal
 
     pr = subprocess.Popen([sys.executable, "-W", "ignore", "-m", "vf.realcluster", json.dumps(dict(spec, deadline_s=90))], stdout=subprocess.PIPE, stderr=subprocess.PIPE,
